@@ -93,6 +93,10 @@ func c16Run(in *c16Input) Res {
 
 func runC16(ctx *Ctx) {
 	r := ctx.R
+	if r.Intn(4) == 0 {
+		runC16Merge(ctx)
+		return
+	}
 	in := &c16Input{FailAt: -1}
 	nb := 2 + r.Intn(12)
 	if ctx.Thorough() && r.Intn(4) == 0 {
@@ -130,6 +134,10 @@ func runC16(ctx *Ctx) {
 }
 
 func corpusC16(ctx *Ctx, op string, raw json.RawMessage) {
+	if op == "merge" {
+		corpusC16Merge(ctx, raw)
+		return
+	}
 	var in c16Input
 	if err := json.Unmarshal(raw, &in); err != nil {
 		panic(err)
